@@ -68,6 +68,8 @@ type report struct {
 	DriverStrings []string `json:"driver_strings"`
 	// constant strings that index a map with string keys in the driver packages (likely option keys)
 	DriverMapKeys []string `json:"driver_map_keys"`
+	// integer constants between 1 KiB and 256 MiB per package (likely buffer sizes and limits)
+	SizeConstants map[string][]int64 `json:"size_constants"`
 	Globals       map[string][]string `json:"package_level_vars"`
 }
 
@@ -184,6 +186,14 @@ func run(repo, out, simrt string) error {
 		if p.PkgPath == modPath+"/pkg/sbom" {
 			rep.SbomInventory = inventory(p)
 		}
+		if p.PkgPath == modPath+"/pkg/storage" || p.PkgPath == modPath+"/pkg/formats" || p.PkgPath == modPath+"/pkg/reader" || p.PkgPath == modPath+"/pkg/writer" {
+			if cs := sizeConstants(p); len(cs) > 0 {
+				if rep.SizeConstants == nil {
+					rep.SizeConstants = map[string][]int64{}
+				}
+				rep.SizeConstants[strings.TrimPrefix(p.PkgPath, modPath+"/pkg/")] = cs
+			}
+		}
 		if strings.HasPrefix(p.PkgPath, modPath+"/pkg/native/serializers") || strings.HasPrefix(p.PkgPath, modPath+"/pkg/native/unserializers") {
 			rep.DriverStrings = append(rep.DriverStrings, stringLiterals(p)...)
 			rep.DriverMapKeys = append(rep.DriverMapKeys, mapKeyConstants(p)...)
@@ -230,6 +240,33 @@ func writeJSON(path string, v any) error {
 		return err
 	}
 	return os.WriteFile(path, b, 0o644)
+}
+
+// sizeConstants lists the values of integer constant expressions between 1 KiB and 256 MiB.
+func sizeConstants(p *packages.Package) []int64 {
+	seen := map[int64]bool{}
+	var out []int64
+	for _, f := range p.Syntax {
+		pos := p.Fset.Position(f.Pos())
+		if strings.HasSuffix(pos.Filename, "_test.go") || ast.IsGenerated(f) || p.TypesInfo == nil {
+			continue
+		}
+		ast.Inspect(f, func(n ast.Node) bool {
+			e, ok := n.(ast.Expr)
+			if !ok {
+				return true
+			}
+			if tv, ok := p.TypesInfo.Types[e]; ok && tv.Value != nil && tv.Value.Kind() == constant.Int {
+				if v, exact := constant.Int64Val(tv.Value); exact && v >= 1024 && v <= 1<<28 && !seen[v] {
+					seen[v] = true
+					out = append(out, v)
+				}
+			}
+			return true
+		})
+	}
+	sort.Slice(out, func(i, j int) bool { return out[i] < out[j] })
+	return out
 }
 
 // mapKeyConstants lists constant strings used to index maps with string keys (m["key"], m[KeyConst]).
